@@ -17,7 +17,7 @@ RULE = ("Hypothesis generates (A, b, block covariance with bands, regularisation
 ASSUMPTIONS = ["numpy/LAPACK SVD and Cholesky as reference arithmetic",
                "rank 'numerically unambiguous': sigma_r/sigma_1 > 1e-4 and sigma_{r+1}/sigma_1 < 1e-11 on the whitened matrix",
                "regularisation subset 'resolves the defect': sigma_min(G_S)/sigma_max(G_S) >= 0.05"]
-REQUIRED_CLASSES = ["d=0", "d>0", "band>0", "subset"]
+REQUIRED_CLASSES = ["d=0", "d>0", "band>0", "subset", "net.fixed", "net.free", "net.correlated"]
 
 
 def nontrivial(case):
@@ -168,7 +168,63 @@ def _whitened_ref(R):
     return R
 
 
+# ------------------------------------------------------------------ (b) network level
+
+@st.composite
+def net_case(draw):
+    from .. import gen_net
+    free = draw(st.integers(0, 2)) == 0
+    net = draw(gen_net.determined_network(noise=1, free=free))
+    if not free and draw(st.booleans()):
+        gen_net.add_mixed_points(draw, net)
+    return {"net": net, "alg": draw(st.sampled_from(ALGS))}
+
+
+def oracle_network(c, stats):
+    """the linear system of the last linearisation, as dumped by the library driver, re-solved by numpy"""
+    from .. import gen_net, netmodel as nm, netrun, netlin
+    from . import c20
+    net, alg = c["net"], c["alg"]
+    if net.get("free"):
+        if not c20.well_posed_free(net):
+            stats.label("discarded_free_not_well_posed")
+            return []
+    elif not gen_net.is_determined(net):
+        stats.label("discarded_not_determined")
+        return []
+    dump, crash = netrun.net_driver(nm.gkf_text(net), alg)
+    if crash is not None:
+        return ["net.%s.crash: %s %s" % (alg, crash["kind"], crash["frame"])]
+    if dump.get("stage") != "adjusted":
+        if net.get("free") and alg == "envelope":
+            return ["net.envelope_free: well-posed free network not adjusted by envelope: %s" % str(dump)[:200]]
+        return ["net.%s.stage: %s" % (alg, str(dump)[:300])]
+    if dump.get("removed_points"):
+        stats.label("net.points_removed")
+        if net.get("free") and alg == "envelope":
+            return ["net.envelope_free: envelope removed points %s of a well-posed free network" % dump["removed_points"]]
+    A, b, C, minx, R = netlin.reference(dump)
+    if R is None or not R.resolving or R.sg_ratio < 0.05:
+        stats.label("discarded_ambiguous")
+        return []
+    stats.label("net.free" if net.get("free") else "net.fixed", "net.d=%d" % R.d)
+    if any(cl["band"] > 0 for cl in dump["clusters"]):
+        stats.label("net.correlated")
+    if net.get("free") and alg == "envelope" and dump["defect"] != R.d:
+        return ["net.envelope_free: envelope reports defect %d, numpy %d" % (dump["defect"], R.d)]
+    case = {"b": b.tolist(), "minx": [i + 1 for i in minx] if minx else None, "m": A.shape[0], "n": A.shape[1]}
+    ans = {"x": {"v": dump["x"]}, "r": {"v": dump["r"]}, "rtr": {"v": dump["vwv"]}, "defect": {"v": dump["defect"]}}
+    fails = check_solution("net." + alg, case, A, C, R, ans, stats)
+    dof = A.shape[0] - A.shape[1] + R.d
+    if dump.get("dof") != dof:
+        fails.append("net.%s.dof: reported %s, m - n + d = %d" % (alg, dump.get("dof"), dof))
+    return fails
+
+
 PARTS = [
     Part("linear", strategy=lambda: gen_linear.linear_problem(), oracle=oracle_linear,
          nontrivial=nontrivial, n={"quick": 4000, "thorough": 40000}),
+    Part("network", strategy=net_case, oracle=oracle_network, n={"quick": 3000, "thorough": 25000},
+         nontrivial=lambda c: bool(c["net"].get("free") or any(cl.get("cov") for cl in c["net"]["clusters"])),
+         sample=lambda c: {"alg": c["alg"], "free": bool(c["net"].get("free")), "points": [p["id"] for p in c["net"]["points"]]}),
 ]
